@@ -31,7 +31,10 @@ SHAPES = {
         ("1000m", dict(p=("1000", -3))), ("1U", dict(p=("1", 0))), ("1.000U", dict(p=("1.000", 0))), ("1n", dict(p=("1", -9))), ("0.001K", dict(p=("0.001", 3))),
         ("1.0000000000000000001", dict(p=("1.0000000000000000001", 0))), ("2U", dict(p=("2", 0))), ("-1U", dict(p=("-1", 0))), ("5m", dict(p=("5", -3))), ("-5m", dict(p=("-5", -3))), ("-0.005U", dict(p=("-0.005", 0))),
     ]),
-    "scalar": dict(fields=[("s", "Scalar")], values=[("1", dict(s=1)), ("'1'", dict(s="1")), ("1.0", dict(s=1.0)), ("'w/5'", dict(s="w/5")), ("'w/6'", dict(s="w/6")), ("2", dict(s=2)), ("-2", dict(s=-2)), ("'-2.0'", dict(s="-2.0"))]),
+    "scalar": dict(fields=[("s", "Scalar")], values=[("1", dict(s=1)), ("'1'", dict(s="1")), ("1.0", dict(s=1.0)), ("'w/5'", dict(s="w/5")), ("'w/6'", dict(s="w/6")), ("2", dict(s=2)), ("-2", dict(s=-2)), ("'-2.0'", dict(s="-2.0")),
+        # literals whose text is what the name encoder emits for a number
+        ("L0", dict(s=("lit", "0"))), ("0", dict(s=0)), ("L5e-3", dict(s=("lit", "5e-3"))), ("5m", dict(s=("pre", "5", -3))), ("L-12e2", dict(s=("lit", "-12e2"))), ("-1200", dict(s=-1200)),
+        ("Lw/5", dict(s=("lit", "w/5")))]),
     "optstr": dict(fields=[("a", "Optional[str]"), ("n", "Optional[int]")], values=[
         ("None|None", dict(a=None, n=None)), ("'None'|None", dict(a="None", n=None)), ("'none'|None", dict(a="none", n=None)), ("x|None", dict(a="x", n=None)),
         ("None|0", dict(a=None, n=0)), ("''|None", dict(a="", n=None)), ("'0'|None", dict(a="0", n=None)),
@@ -100,6 +103,8 @@ def make_env():
                 v = objs[v]
             elif t == "FrozenSet[str]":
                 v = frozenset(v)
+            elif t == "Scalar" and isinstance(v, tuple):
+                v = h.Literal(v[1]) if v[0] == "lit" else h.Prefixed(number=Decimal(v[1]), prefix=Prefix.from_exp(v[2]))
             out[n] = v
         return out
 
